@@ -76,6 +76,13 @@ def gen_template(rng):
     lines.append("")
     if rng.random() < 0.5:
         lines.append("float array A =\n    1.5, 2\n    3, 4.25")
+    if rng.random() < 0.5:
+        # values that an in-place normalisation would change: negative imaginary parts, negative zero, negative entries
+        lines.append("complex array C =\n    1-2j, 0.5+0.5j\n    -1j, 3-0.25j")
+        lines.append(rng.choice(["Interferometer(C) | [0, 1]", "Kgate(U=C) | 1", "Interferometer(C, l=[1, 2]) | [0, 1]"]))
+    if rng.random() < 0.3:
+        lines.append("float array N =\n    -1.5, -0.0\n    2, -3")
+        lines.append("Ggate(N) | [0, 1]")
     n = rng.randint(1, 5)
     pars = rng.sample(["a", "b", "phi", "ab", "y", "lambda", "I", "val"], rng.randint(1, 3))
     for i in range(n):
@@ -84,7 +91,7 @@ def gen_template(rng):
         arg = rng.choice(["{%s}", "2 * {%s} + 1", "-1.5 * {%s}", "{%s} / 4"]) % p
         lines.append(form % (arg, rng.randint(0, 2)))
         if rng.random() < 0.4:
-            lines.append(rng.choice(["Vac | %d" % rng.randint(0, 3), "MeasureX | %d" % rng.randint(0, 3), "Kgate(A) | 1" if "array" in "\n".join(lines) else "Vac | 0"]))
+            lines.append(rng.choice(["Vac | %d" % rng.randint(0, 3), "MeasureX | %d" % rng.randint(0, 3), "Kgate(A) | 1" if "float array A =" in "\n".join(lines) else "Vac | 0"]))
     return "\n".join(lines) + "\n", pars
 
 
